@@ -55,8 +55,8 @@ type RunResult struct {
 }
 
 // groupTargets maps a model group to real API targets.
-var groupRID = map[string]string{"g1": "test.r.a", "g2": "test.q.b", "par": "test.par.c", "g3": "test.sub.x.d", "g4": "test.adm.x", "g5": "test.sub.late.e"}
-var groupID = map[string]string{"g1": "test.r.a", "g2": "grp.b", "par": "", "g3": "deep.d", "g4": "ten.adm", "g5": "test.sub.late.e"}
+var groupRID = map[string]string{"g1": "test.r.a", "g2": "test.q.b", "par": "test.par.c", "g3": "test.sub.x.d", "g4": "test.adm.x", "g5": "test.sub.late.e", "g6": "test"}
+var groupID = map[string]string{"g1": "test.r.a", "g2": "grp.b", "par": "", "g3": "deep.d", "g4": "ten.adm", "g5": "test.sub.late.e", "g6": "test"}
 
 // Scenario is one service instance with monitors.
 type Scenario struct {
@@ -78,6 +78,7 @@ type Scenario struct {
 	wg        sync.WaitGroup
 	pwg       sync.WaitGroup // producers and API callers only
 	panics    int32
+	nqe       int32
 }
 
 func (sc *Scenario) violate(prop, kind, text string, sig map[string]string) {
@@ -146,6 +147,7 @@ func NewScenario(tr *Tracer, prog Program) *Scenario {
 	s := res.NewService("test")
 	s.SetLogger(nil)
 	s.SetWorkerCount(sc.prog.Workers)
+	s.SetQueryEventDuration(2 * time.Millisecond)
 	if sc.prog.InCh > 0 {
 		s.SetInChannelSize(sc.prog.InCh)
 	}
@@ -173,6 +175,8 @@ func NewScenario(tr *Tracer, prog Program) *Scenario {
 	// registered on the service after the mount, with a pattern that passes through the mount point:
 	// no Group option, so every resource is its own worker group
 	s.Handle("sub.late.$id", res.GetResource(handler), res.Call("m", call))
+	// the resource whose name is the service name itself (handler on the mux root), default group
+	s.Handle("", res.GetResource(handler), res.Call("m", call))
 	sc.svc = s
 	return sc
 }
@@ -193,6 +197,9 @@ func (sc *Scenario) submit(cb string, sub Sub) {
 	}
 	if sub.Group == "g4" && len(cb)%2 == 0 {
 		rid = "test.adm.y" // enters the mounted "adm" mux, matches nothing there, falls back to $tenant.$doc
+	}
+	if sub.Group == "g6" && (sub.Kind == "get" || sub.Kind == "call") {
+		sub.Kind = "with" // a wildcard subscription does not carry requests for the bare service name
 	}
 	if sub.Kind != "withgroup" && sub.Kind != "nomatch" {
 		sc.expect.Store(cb, gid)
@@ -238,7 +245,7 @@ func (sc *Scenario) submit(cb string, sub Sub) {
 		}
 	case "nomatch":
 		// resource ids no handler matches: an unknown name, and names that merely start with the service name
-		rid := []string{"test.nothing.here.at.all", "testr.a", "test-q.b", "tes.r.a", "testpar.c", "test"}[len(cb)%6]
+		rid := []string{"test.nothing.here.at.all", "testr.a", "test-q.b", "tes.r.a", "testpar.c", "test2"}[len(cb)%6]
 		if err := sc.svc.With(rid, func(res.Resource) { sc.body(cb, "nomatch") }); err == nil {
 			sc.violate("C02", "with-no-error", "With on a resource id without handler returned nil", nil)
 		}
@@ -289,6 +296,31 @@ func (sc *Scenario) api(kind string) {
 		if err == nil {
 			r.Event("custom", nil)
 		}
+	case "queryevent":
+		// a query event that expires a few milliseconds later - often after the service was stopped.
+		// Its final callback (nil) is a callback of the resource's group like any other.
+		r, err := sc.svc.Resource("test.r.a")
+		if err != nil {
+			return
+		}
+		id := fmt.Sprintf("qe%d", atomic.AddInt32(&sc.nqe, 1))
+		var returned int32
+		r.QueryEvent(func(qr res.QueryRequest) {
+			if qr != nil || atomic.LoadInt32(&returned) == 0 {
+				return // (a refused QueryEvent calls back on the caller's goroutine before it returns)
+			}
+			g := r.Group()
+			v, _ := sc.occ.LoadOrStore(g, new(int32))
+			ctr := v.(*int32)
+			if n := atomic.AddInt32(ctr, 1); n > 1 {
+				sc.violate("C01", "group-overlap", fmt.Sprintf("the final callback of query event %s ran while another callback of group %q was inside", id, g), map[string]string{"group": g})
+			}
+			sc.tr.Log("qe.nil", id, g)
+			time.Sleep(50 * time.Microsecond)
+			sc.tr.Log("qe.nilend", id, g)
+			atomic.AddInt32(ctr, -1)
+		})
+		atomic.StoreInt32(&returned, 1)
 	}
 }
 
